@@ -173,7 +173,7 @@ class OrderTask(Task):
     weight = 10
 
     def __init__(self, name, cfg, call_a, call_b, embed, lemmas=None, value_a=None, value_b=None, abort_a=1, abort_b=1, tol=3e-4,
-                 trusted=()):
+                 trusted=(), replay_a=None, replay_b=None):
         """embed(VA, vars_b) -> list of symbolic matrices, one per variable of B (same order as vars_b), affine in A's variables.
         lemmas(VA, PA, emb) -> list of z3 formulas (instantiated PSD-cone facts)."""
         super().__init__(name, cfg)
@@ -181,6 +181,10 @@ class OrderTask(Task):
         self.va = value_a or (lambda r: float(np.real(r[0] if isinstance(r, tuple) else r)))
         self.vb = value_b or self.va
         self.aa, self.ab, self.tol, self.trusted = abort_a, abort_b, tol, list(trusted)
+        # replay_a / replay_b: the two values for the numeric replay when they are better obtained through another formulation of the
+        # same quantity (cvxopt breaks down on some primal programs of the unmodified library)
+        self.ra = replay_a or (lambda: self.va(self.ca()))
+        self.rb = replay_b or (lambda: self.vb(self.cb()))
 
     def _run(self, rec, seed):
         capa, capb = capture_call(self.ca, self.aa), capture_call(self.cb, self.ab)
@@ -234,7 +238,7 @@ class OrderTask(Task):
     def _numeric(self, rec, why):
         rec["disagreements_checked"] = 1
         try:
-            a, b = self.va(self.ca()), self.vb(self.cb())
+            a, b = self.ra(), self.rb()
         except (ArithmeticError, ZeroDivisionError) as e:
             rec["notes"].append(f"replay: conic solver breakdown ({type(e).__name__})")
             return
@@ -260,7 +264,7 @@ class OrderTask(Task):
             except Exception as e:  # noqa: BLE001
                 print({"exception": f"{type(e).__name__}: {e}"})
                 return False
-        a, b = self.va(self.ca()), self.vb(self.cb())
+        a, b = self.ra(), self.rb()
         print({"lower": a, "upper": b})
         return a <= b + self.tol
 
